@@ -946,6 +946,17 @@ def _emit_family_impl(draw, S, fam, allow_set_broadcast=True, allow_ndim_dot=Fal
         if a is None:
             return False
         nd = S.ndim(a)
+        if draw(st.integers(0, 3)) == 0:
+            # a reduction over an axis of length 1 (or of a single element): nothing is added up, the result must still be a new value
+            ones = [q for q in range(S.nreg()) if S.ndim(q) >= 1 and not S.cplx(q) and 1 in S.shape(q)]
+            if ones:
+                a = draw(st.sampled_from(ones))
+                nd = S.ndim(a)
+                k = draw(st.sampled_from([i for i, n in enumerate(S.shape(a)) if n == 1]))
+                return S.try_emit(['sum', a, draw(st.sampled_from([k, k - nd] + ([None] if int(np.prod(S.shape(a))) == 1 else [])))])
+            if S.try_emit(['get', a, (Ellipsis, slice(0, 1))]):
+                a = S.nreg() - 1
+                return S.try_emit(['sum', a, -1])
         axis = draw(st.sampled_from([None] + list(range(-nd, nd))))
         return S.try_emit(['sum', a, axis])
     if fam == 'prod':
